@@ -1,6 +1,7 @@
 import ClaripyProofs.Lemmas.VSA.Balancer
 import ClaripyProofs.Lemmas.VSA.BalancerUnsat
 import ClaripyProofs.Lemmas.VSA.BalancerUnsatSigned
+import ClaripyProofs.Lemmas.VSA.BalancerNoLit
 /-!
 # C25 — constraint_to_si never cuts off a satisfying assignment
 
@@ -215,6 +216,68 @@ theorem C25_unsat_sound_eqne_partial (op : CmpOp) (a b : BV) (hoa : ExprOK anno 
     (hal2 : ∀ p1 p2, convBV anno a [] = .ok p1 → convBV anno b p1.2 = .ok p2 → p1.1.si.Aligned ∧ p2.1.si.Aligned)
     (h : doit anno (.cmp op a b) = .ok .unsat) : evalB env (.cmp op a b) ≠ some true :=
   doit_unsat_sound_eqne anno env hctx hnrm op a b hoa hob hwab hop hal2 h
+
+/-! ### without the hypothesis on the side facing a literal
+
+`hsym` above says: when `b` is a literal, `a` has a symbolic leaf.  The other case (two sides without a symbolic leaf, both of
+cardinality 1 from the concrete backend) is handled by the model as well: `_balance` never reaches a symbolic expression and
+`_handle` returns at cardinality 1, so nothing is recorded (`doit_nosym_nil`).  Inputs whose other side is neither a literal
+nor multi-valued make the model answer `unmodelled`, so `doit … = .ok …` excludes them. -/
+
+omit hctx hnrm in
+theorem sound_nil : Sound env [] := by intro e lo hi h; cases h
+
+theorem C25_balancer_sound_nolit (op : CmpOp) (a b : BV) (bs : Bounds) (info : PathInfo)
+    (hoa : ExprOK anno env a) (hob : ExprOK anno env b) (hwab : wd a = wd b) (hop : unsOp op = true)
+    (h : doit anno (.cmp op a b) = .ok (.sat bs info)) (hcov : CoveredPt op info)
+    (hsat : evalB env (.cmp op a b) = some true) : Sound env bs := by
+  by_cases hsym : ∀ r w, b = .const r w → symBV a = true
+  · exact C25_balancer_sound anno env hctx hnrm op a b bs info hoa hob hwab hop hsym h hcov hsat
+  · have : ∃ r w, b = .const r w ∧ symBV a = false := by
+      by_contra hc
+      apply hsym
+      intro r w hb
+      by_contra hs
+      exact hc ⟨r, w, hb, by simpa using hs⟩
+    obtain ⟨r, w, hb, hs⟩ := this
+    rw [doit_nosym_nil anno op a b bs info hs (by rw [hb]; rfl) h]
+    exact sound_nil env
+
+theorem C25_balancer_sound_pair_nolit (op : CmpOp) (a b : BV) (bs : Bounds) (oT oA : BalOut) (hoa : ExprOK anno env a)
+    (hob : ExprOK anno env b) (hwab : wd a = wd b) (hord : uOrd op)
+    (hma : ∀ r w, b = .const r w → isModLhs a = true) (hmb : ∀ r w, a = .const r w → isModLhs b = true)
+    (h : doit anno (.cmp op a b) = .ok (.sat bs ⟨some oT, some oA⟩))
+    (hptT : oT.usedPt = false) (hptA : oA.usedPt = false) (hsame : oT.t.lhs = oA.t.lhs)
+    (hsat : evalB env (.cmp op a b) = some true) : Sound env bs := by
+  by_cases hsym : ∀ r w, b = .const r w → symBV a = true
+  · exact C25_balancer_sound_pair anno env hctx hnrm op a b bs oT oA hoa hob hwab hord hsym hma hmb h hptT hptA hsame hsat
+  · have : ∃ r w, b = .const r w ∧ symBV a = false := by
+      by_contra hc
+      apply hsym
+      intro r w hb
+      by_contra hs
+      exact hc ⟨r, w, hb, by simpa using hs⟩
+    obtain ⟨r, w, hb, hs⟩ := this
+    rw [doit_nosym_nil anno op a b bs _ hs (by rw [hb]; rfl) h]
+    exact sound_nil env
+
+theorem C25_balancer_sound_signed_nolit (op : CmpOp) (a b : BV) (bs : Bounds) (info : PathInfo) (oT oA : BalOut)
+    (hoa : ExprOK anno env a) (hob : ExprOK anno env b) (hwab : wd a = wd b) (hord : sOrd op)
+    (h : doit anno (.cmp op a b) = .ok (.sat bs info)) (hmain : info.main = some oT) (hassum : info.assum = some oA)
+    (hptT : oT.usedPt = false) (hptA : oA.usedPt = false) (hsame : oT.t.lhs = oA.t.lhs)
+    (hsat : evalB env (.cmp op a b) = some true) : Sound env bs := by
+  by_cases hsym : ∀ r w, b = .const r w → symBV a = true
+  · exact C25_balancer_sound_signed anno env hctx hnrm op a b bs info oT oA hoa hob hwab hord hsym h hmain hassum hptT hptA
+      hsame hsat
+  · have : ∃ r w, b = .const r w ∧ symBV a = false := by
+      by_contra hc
+      apply hsym
+      intro r w hb
+      by_contra hs
+      exact hc ⟨r, w, hb, by simpa using hs⟩
+    obtain ⟨r, w, hb, hs⟩ := this
+    rw [doit_nosym_nil anno op a b bs info hs (by rw [hb]; rfl) h]
+    exact sound_nil env
 
 end
 
